@@ -165,7 +165,7 @@ pub fn gen_rw_run(check: &str, seed: u64, tier: Tier) -> Run {
         run.set("stride_seed", (f.next() >> 1) as i64);
     }
     if f.chance(1, 4) {
-        run.set("buggify_mask", 1 + f.below(3) as i64);
+        run.set("buggify_mask", 1 + f.below(7) as i64);
         run.set("buggify_seed", (f.next() >> 1) as i64);
     }
     if f.chance(1, 2) {
